@@ -33,6 +33,9 @@ func (e *Exec) mapOf(m *Map, op string) *mapState {
 }
 
 func (m *Map) Load(key any) (any, bool) {
+	if cur == nil {
+		return outMap(m).Load(key)
+	}
 	e := cur
 	if e.aborted.Load() {
 		return nil, false
@@ -43,6 +46,10 @@ func (m *Map) Load(key any) (any, bool) {
 }
 
 func (m *Map) Store(key, value any) {
+	if cur == nil {
+		outMap(m).Store(key, value)
+		return
+	}
 	e := cur
 	if e.aborted.Load() {
 		return
@@ -55,6 +62,9 @@ func (m *Map) Store(key, value any) {
 }
 
 func (m *Map) LoadOrStore(key, value any) (any, bool) {
+	if cur == nil {
+		return outMap(m).LoadOrStore(key, value)
+	}
 	e := cur
 	if e.aborted.Load() {
 		return value, false
@@ -69,6 +79,9 @@ func (m *Map) LoadOrStore(key, value any) (any, bool) {
 }
 
 func (m *Map) LoadAndDelete(key any) (any, bool) {
+	if cur == nil {
+		return outMap(m).LoadAndDelete(key)
+	}
 	e := cur
 	if e.aborted.Load() {
 		return nil, false
@@ -82,6 +95,9 @@ func (m *Map) LoadAndDelete(key any) (any, bool) {
 func (m *Map) Delete(key any) { m.LoadAndDelete(key) }
 
 func (m *Map) Swap(key, value any) (any, bool) {
+	if cur == nil {
+		return outMap(m).Swap(key, value)
+	}
 	e := cur
 	if e.aborted.Load() {
 		return nil, false
@@ -96,6 +112,10 @@ func (m *Map) Swap(key, value any) (any, bool) {
 }
 
 func (m *Map) Range(f func(key, value any) bool) {
+	if cur == nil {
+		outMap(m).Range(f)
+		return
+	}
 	e := cur
 	if e.aborted.Load() {
 		return
@@ -121,6 +141,10 @@ type onceState struct {
 var onces = map[uintptr]*onceState{}
 
 func (o *Once) Do(f func()) {
+	if cur == nil {
+		outOnce(o).Do(f)
+		return
+	}
 	e := cur
 	if e.aborted.Load() {
 		return
@@ -181,6 +205,9 @@ func poolOf(p *Pool) *poolState {
 }
 
 func (p *Pool) Get() any {
+	if cur == nil {
+		return outPoolGet(p)
+	}
 	e := cur
 	if e.aborted.Load() {
 		if p.New != nil {
@@ -206,6 +233,10 @@ func (p *Pool) Get() any {
 }
 
 func (p *Pool) Put(x any) {
+	if cur == nil {
+		outPoolPut(p, x)
+		return
+	}
 	e := cur
 	if e.aborted.Load() {
 		return
